@@ -847,6 +847,8 @@ class Program:
         census = inline.load_census()
         loaded = [(u, json.load(open(os.path.join(factdir, u["json"])))) for u in manifest["units"]]
         self.inlined = []
+        inline.alias_fields([d for _, d in loaded], inline.load_records(), self.inlined)
+        inline.alias_globals([d for _, d in loaded], self.rel, self.inlined)
         for _, d in loaded:
             for fd in d["functions"]:
                 inline.split_returns(fd)
